@@ -291,7 +291,9 @@ where
     /// Get a blob by its key.
     /// Returns `Ok(None)` if the key does not exist.
     pub fn get(&self, key: &K) -> Result<Option<bytes::Bytes>, LibError> {
-        self.with_blob_item(key, |item| self.cas_manager.read_blob(&item.blob_hash))
+        self.with_blob_file(key, |item, file| {
+            self.cas_manager.read_blob(&item.blob_hash, file, item.blob_size)
+        })
     }
 
     /// Get the size of a blob by its key.
@@ -305,7 +307,7 @@ where
     /// Returns `Ok(None)` if the key does not exist.
     /// Safe to hold for long periods, will stream data even if the key was deleted.
     pub fn get_reader(&self, key: &K) -> Result<Option<BufReader<File>>, LibError> {
-        self.with_blob_item(key, |item| self.cas_manager.blob_bufreader(&item.blob_hash))
+        self.with_blob_file(key, |_item, file| Ok(BufReader::new(file)))
     }
 
     /// Get a range of bytes from a blob.
@@ -320,13 +322,13 @@ where
         range_start: u64,
         range_end: u64,
     ) -> Result<Option<bytes::Bytes>, LibError> {
-        self.with_blob_item(key, |item| {
+        self.with_blob_file(key, |item, file| {
             if range_start >= item.blob_size {
                 return Ok(bytes::Bytes::new());
             }
             let range_end = std::cmp::min(range_end, item.blob_size);
 
-            self.cas_manager.read_blob_range(&item.blob_hash, range_start, range_end)
+            self.cas_manager.read_blob_range(&item.blob_hash, &file, range_start, range_end)
         })
     }
 
@@ -391,7 +393,34 @@ where
             return Ok(None);
         };
 
-        match f(&item) {
+        Self::map_blob_result(key, &item, f(&item))
+    }
+
+    /// Looks the key up and opens its blob while the index read guard is still held, so a
+    /// concurrent overwrite or removal cannot unlink the blob between lookup and open; the
+    /// content is read after the guard is released (the descriptor keeps it alive).
+    fn with_blob_file<T, F>(&self, key: &K, f: F) -> Result<Option<T>, LibError>
+    where
+        F: FnOnce(&IndexStateItem, File) -> Result<T, CasManagerError>,
+    {
+        let (item, file) = {
+            let state = self.index.read_state();
+            let Some(item) = state.get_item(key) else {
+                return Ok(None);
+            };
+            let file = self.cas_manager.open_blob(&item.blob_hash);
+            (item, file)
+        };
+
+        Self::map_blob_result(key, &item, file.and_then(|file| f(&item, file)))
+    }
+
+    fn map_blob_result<T>(
+        key: &K,
+        item: &IndexStateItem,
+        result: Result<T, CasManagerError>,
+    ) -> Result<Option<T>, LibError> {
+        match result {
             Ok(result) => Ok(Some(result)),
             Err(cas_error) => {
                 if let Some(io_err) =
